@@ -214,19 +214,21 @@ class NumpyProxy(types.ModuleType):
         return self._filled(numpy.eye, *a, **k)
 
     # S3: a full reduction of an object array returns the bare element; a plain python number (empty reduction) becomes a Sym
-    def _scalar(self, r):
-        if isinstance(r, (int, float)) and not isinstance(r, bool):
+    def _scalar(self, r, a=None):
+        if getattr(a, "dtype", None) is not None and a.dtype != object:
+            return r  # native arrays: numpy's own result, untouched (numpy.float64 is a float subclass)
+        if isinstance(r, (int, float)) and not isinstance(r, (bool, numpy.generic)):
             return Sym.const(r)
         return r
 
     def sum(self, a, *args, **kw):
-        return self._scalar(numpy.sum(a, *args, **kw))
+        return self._scalar(numpy.sum(a, *args, **kw), a)
 
     def prod(self, a, *args, **kw):
-        return self._scalar(numpy.prod(a, *args, **kw))
+        return self._scalar(numpy.prod(a, *args, **kw), a)
 
     def mean(self, a, *args, **kw):
-        return self._scalar(numpy.mean(a, *args, **kw))
+        return self._scalar(numpy.mean(a, *args, **kw), a)
 
     # S12: isclose / allclose by numpy's documented formula |a - b| <= atol + rtol * |b| for finite object values
     def isclose(self, a, b, rtol=1e-05, atol=1e-08, equal_nan=False):
